@@ -78,7 +78,7 @@ func VerifC08VisitorConn() {
 
 	name := []string{"p1", "p2", "nosuch"}[zzverif.Choice("name", 3)]
 	ts := zzverif.Int64("ts")
-	sign := zzverif.String("sign", 8)
+	sign := zzverif.String("sign", []int{8, 0, 1, 7, 9}[zzverif.Choice("signLen", 5)])
 	user := c08Users[zzverif.Choice("user", 3)] // a login user is never "*"
 	enc, comp := zzverif.Bool("enc"), zzverif.Bool("comp")
 	c08EncFails = zzverif.Bool("encFails")
